@@ -163,7 +163,7 @@ def main() -> None:
         ],
         "checks": checks,
         "not_applicable": na,
-        "notes": "All checks explore the real implementation (no separate model): traces_validated_against_impl == evaluations. VERIF_SEED only rotates the work list. Exit 3 + INTERNAL = harness fault, never a violation.",
+        "notes": "All checks explore the real implementation (no separate model): traces_validated_against_impl == evaluations. VERIF_SEED only rotates the work list. Exit 3 + INTERNAL = harness fault, never a violation (an uncaught exception raised by library code is reported as a crash/<type> violation instead). Known findings: known_findings.json (KNOWN-FINDING lines, exit 0). Independently written breaking changes and what caught them: seeded/ and DESIGN.md 10.5.",
     }
     with open(os.path.join(VERIF, "MANIFEST.json"), "w") as f:
         json.dump(doc, f, indent=1)
